@@ -577,6 +577,8 @@ def cone_ref(vals, rc, rdir, hbits, rres):
             if kept: return 'zero-magnitude member or axis selected'
             continue
         ang = angdiff(direction(_A(G)), direction(_A(d)))
+        if (m[1], m[2] % 4) == (d[2], d[3] % 4) and h >= 0 and not kept:
+            return 'member pointing exactly along the axis (unsigned angle 0) dropped although the half-angle is %s' % mp.nstr(h, 12)
         if ang < h - band and not kept: return 'member at unsigned angle %s <= half-angle %s dropped' % (mp.nstr(ang, 12), mp.nstr(h, 12))
         if ang > h + band and kept: return 'member at unsigned angle %s > half-angle %s kept' % (mp.nstr(ang, 12), mp.nstr(h, 12))
     return None
